@@ -159,11 +159,93 @@ theorem doInvoke_ok (vs : Variants) (env : Env) (rk : String → Nat) (cfg : Cfg
     have hctx : (proxyRequest env cfg f.name f.sig false args opts).context = (optsMaps opts).1.getD [] := rfl
     have hst : (proxyRequest env cfg f.name f.sig false args opts).status = (optsMaps opts).2.getD [] := rfl
     simp only [hctx, hst] at hcore ⊢
-    simp only [hpt, if_false, Bool.false_eq_true, afterServer,
-      recvFirst_rsp2Byte cfg.maxLen _ hcall.maxLen himpl'.fits, awaitReply,
-      clientRecv_rsp2Byte _ _ hrsp hid hcall.reqIdNZ hpt2]
-    split
-    · rename_i e he; rw [he]
-    · rename_i he; rw [he]
+    simp only [hpt, if_false, Bool.false_eq_true, afterServer]
+    rw [recvFirst_rsp2Byte cfg.maxLen _ hcall.maxLen himpl'.fits]
+    simp only [awaitReply]
+    rw [clientRecv_rsp2Byte _ _ hrsp hid hcall.reqIdNZ hpt2]
+    simp only [deliver]
+    cases clientErr vs.emptyDesc
+      (replyPacket vs.zeroCode env (proxyRequest env cfg f.name f.sig false args opts) f.sig
+        (f.impl (normMembers env (inFields f.sig) (inVals f.sig.params args))
+          ((optsMaps opts).1.getD []) ((optsMaps opts).2.getD []))).iRet
+      (replyPacket vs.zeroCode env (proxyRequest env cfg f.name f.sig false args opts) f.sig
+        (f.impl (normMembers env (inFields f.sig) (inVals f.sig.params args))
+          ((optsMaps opts).1.getD []) ((optsMaps opts).2.getD []))).sResultDesc <;> rfl
+
+/-! ## the proxy's reading of the response -/
+
+theorem oldOKs_append (env : Env) : ∀ (fs1 fs2 : List Field) (o1 o2 : List Val),
+    OldOKs env fs1 o1 → OldOKs env fs2 o2 → OldOKs env (fs1 ++ fs2) (o1 ++ o2)
+  | [], _, [], _, _, h2 => by simpa using h2
+  | [], _, _ :: _, _, h1, _ => by simp [OldOKs] at h1
+  | _ :: _, _, [], _, h1, _ => by simp [OldOKs] at h1
+  | f :: fs1, fs2, o :: o1, o2, h1, h2 => by
+    simp only [OldOKs, List.cons_append] at h1 ⊢
+    exact ⟨h1.1, oldOKs_append env fs1 fs2 o1 o2 h1.2 h2⟩
+
+theorem proxyFinish_ok (env : Env) (rk : String → Nat) (hE : EnvWF env rk) (sig : Sig)
+    (args : List Val) (opts : List (Option StrMap)) (resp : RspPacket) (ret : Option Val)
+    (outs : List Val)
+    (hbuf : resp.sBuffer = encMembers env (rspFields sig) (ret.toList ++ outs))
+    (hwt : WTm env (rspFields sig) (ret.toList ++ outs))
+    (hshape : ret.isSome = sig.ret.isSome)
+    (hn : sig.params.length + cpArgTagOffset ≤ 256)
+    (hty : ∀ p ∈ sig.params, TyOK env rk (env.length + 1) p.ty)
+    (hretTy : ∀ t, sig.ret = some t → TyOK env rk (env.length + 1) t)
+    (hfresh : OutsFresh env sig args) (hnil : ∀ m ∈ opts, m ≠ none) :
+    proxyFinish env sig args opts resp =
+      .returned none ⟨normRet env sig ret, normOuts env sig outs,
+        (copiedMaps opts resp.context resp.status).1, (copiedMaps opts resp.context resp.status).2⟩ := by
+  have hout := outFieldsFrom_ok env rk sig.params 0 (by omega) hty
+  have hfields : ∀ f ∈ rspFields sig, ArgFieldOK env rk f := by
+    intro f hf
+    simp only [rspFields, List.mem_append] at hf
+    rcases hf with hf | hf
+    · unfold retFields at hf
+      cases hsr : sig.ret with
+      | none => simp [hsr] at hf
+      | some t =>
+        simp only [hsr, List.mem_singleton] at hf
+        subst hf
+        exact ⟨by simp only [cpRetTag]; decide, rfl, rfl, hretTy t hsr⟩
+    · exact hout f hf
+  have holds : OldOKs env (rspFields sig) ((sig.ret.map (zeroOf env)).toList ++ outVals sig.params args) := by
+    apply oldOKs_append _ _ _ _ _ _ hfresh
+    unfold retFields
+    cases hsr : sig.ret with
+    | none => simp [OldOKs]
+    | some t => simp only [Option.map_some, Option.toList_some, OldOKs, OldOK, and_true]
+                exact zeroOf_ready hE t (hretTy t hsr)
+  have hreq : ∀ f ∈ rspFields sig, f.req = true := fun f hf => (hfields f hf).2.1
+  have hfuel := needElems_le_argFuel env (rspFields sig) (ret.toList ++ outs)
+    (Reader.mk0 (encMembers env (rspFields sig) (ret.toList ++ outs))) [] hreq hwt (mk0_rest _)
+  have hdec := decMembers_req_rt env rk hE (ret.toList ++ outs) (rspFields sig) _ _ _ []
+    hfields hwt holds hfuel (mk0_rest _)
+  unfold proxyFinish
+  simp only [hbuf, hdec]
+  -- the values read: return value first (if any), then the out parameters
+  have hvals : (if sig.ret.isSome then (normMembers env (rspFields sig) (ret.toList ++ outs)).head? else none)
+        = normRet env sig ret ∧
+      (if sig.ret.isSome then (normMembers env (rspFields sig) (ret.toList ++ outs)).drop 1
+        else normMembers env (rspFields sig) (ret.toList ++ outs)) = normOuts env sig outs := by
+    cases hsr : sig.ret with
+    | none =>
+      cases ret with
+      | some v => simp [hsr] at hshape
+      | none => simp [rspFields, retFields, hsr, normRet, normOuts]
+    | some t =>
+      cases ret with
+      | none => simp [hsr] at hshape
+      | some v => simp [rspFields, retFields, hsr, normRet, normOuts, normMembers]
+  rw [hvals.1, hvals.2]
+  -- copy-back into non-nil maps
+  match opts, hnil with
+  | [], _ => simp [copiedMaps, optsMaps]
+  | [none], h => exact absurd rfl (h none (by simp))
+  | [some c], _ => simp [copiedMaps, optsMaps, copyBack]
+  | [none, _], h => exact absurd rfl (h none (by simp))
+  | [some _, none], h => exact absurd rfl (h none (by simp))
+  | [some c, some s], _ => simp [copiedMaps, optsMaps, copyBack]
+  | _ :: _ :: _ :: _, _ => simp [copiedMaps, optsMaps]
 
 end Tars.CallPath
